@@ -66,6 +66,7 @@ def run(ctx):
     for n in walk_no_nested(fi.node):
         if isinstance(n, ast.Assign) and ast.unparse(n.targets[0]) == sem.own_state:
             vt = ast.unparse(n.value)
+            vt = sem.alias_of.get(vt, vt)
             if any(vt == f"self.{sem.info['states']}[{v}]" for v in sem.dep_vars):
                 inh_ok = True
     r2.check(inh_ok, construct + "::inherit-value", "own state is assigned from the examined dependency's state",
